@@ -1163,9 +1163,10 @@ def line(case, impl):
         if impl.get("cls_def") is not None:
             l["clsDef"] = impl["cls_def"]
         l["scratch"] = impl.get("scratch", [])
-        # keep_undefined as deserialize_structure_internal receives it (Deserializer.deserialize passes
-        # None on for a class that allows additional properties)
-        l["keepUndefined"] = bool(case.get("entry") == "deserialize_structure" or not case["cls"].get("addl", True))
+        # keep_undefined as deserialize_structure_internal receives it: True by default from deserialize_structure;
+        # Deserializer.deserialize passes None on for a class that allows additional properties and (since /repo
+        # 005d815) `not ignore_invalid_additional_properties_in_deserialization` = False for a closed class
+        l["keepUndefined"] = bool(case.get("entry") == "deserialize_structure")
     if impl.get("msg") is not None:
         l["msg"] = impl["msg"]
         # oracle answers for `\w`: the non-ASCII characters of the message that str.isalnum() accepts
